@@ -630,6 +630,7 @@ class World:
         must_change = []
         where = None
         expect_raise = None
+        cursor_has_sites = False
         if wk == 'idx':
             if k == 0:
                 where, expect_raise = 0, 'no-sites'
@@ -694,6 +695,7 @@ class World:
                     inside = [t for t in site_targets if all(any(beneath_or_at(p, mp) for mp in rec['paths']) for p in t)]
                     self.stats.count('ops', 'apply:cursor-of-this-program')
                     if inside:
+                        cursor_has_sites = True
                         firsts = [t[0] for t in inside]
                         allowed = [p for t in inside for p in t]
                         must_change = [t for t in inside if not any(q != t[0] and beneath_or_at(t[0], q) for q in firsts)]
@@ -713,6 +715,10 @@ class World:
             if wk == 'idx' and expect_raise is None and isinstance(raised, TransformError):
                 # a listed site must be rewritable by its index (a refusal must not consume an index)
                 self.vio('listed-index-rejected', {'j': where, 'k': k, 'exc': f'{type(raised).__name__}: {raised}'[:300]}, strategy=name, where_kind=wk)
+            elif wk == 'cursor' and cursor_has_sites and expect_raise is None and isinstance(raised, TransformError):
+                # a cursor of this program with listed sites at or beneath it must rewrite them (refused
+                # candidates beneath it are skipped, as the listing within it says)
+                self.vio('cursor-naming-sites-rejected', {'k': k, 'exc': f'{type(raised).__name__}: {raised}'[:300]}, strategy=name, where_kind=wk)
             elif wk == 'none' and k > 0 and isinstance(raised, TransformError):
                 self.vio('where-none-rejected-with-sites', {'k': k, 'exc': f'{type(raised).__name__}: {raised}'[:300]}, strategy=name, where_kind=wk)
             self.stats.count('faults', 'strategy-declined-or-failed')
